@@ -1773,6 +1773,47 @@ class SymEx:
             out.append((s, newt))
         return out
 
+    def ctor_call(self, c, init, args, kwargs, st, e, how, layer):
+        """Class(...) : a value class / record is constructed structurally, any other class is an opaque constructor call event"""
+        fn = self.fn
+        site = self.site(e)
+        bound = self.bind(init, args, kwargs) if init else {}
+        if (c.name in self.value_classes and init is not None) or self.M.is_record_init(c):
+            return self.construct(c, bound, st, e)
+        rf = self.M.record_fields(c, c.name in self.value_classes)
+        if rf is not None and not any(a[0] == 'starred' for a in args):
+            # a dataclass / NamedTuple new to the tree: the object is its fields
+            names = [n for n, _ in rf]
+            vals = dict(zip(names, args))
+            vals.update({k: v for k, v in kwargs if k in names})
+            ok = True
+            for n, d in rf:
+                if n not in vals:
+                    if d is None:
+                        ok = False
+                        break
+                    self.frames.append(self.M.module_func(c.mod))
+                    try:
+                        r_ = self.ev(d, State())
+                    finally:
+                        self.frames.pop()
+                    if len(r_) != 1:
+                        ok = False
+                        break
+                    vals[n] = r_[0][1]
+                    if vals[n][0] == 'call' and vals[n][1][0] == 'ext' and vals[n][1][1].endswith('field'):
+                        df = dict(vals[n][3]).get('default')
+                        if df is None:
+                            ok = False
+                            break
+                        vals[n] = df
+            if ok and len(args) <= len(names):
+                NT_FIELDS[c.name] = tuple(names)
+                return [(st, ('new', c.name, tuple(sorted(vals.items()))))]
+        x = st.ev(Ev('call', callee=[c.name + '.__init__'], args=bound, site=site, fn=fn.qn, how=how, layer=layer,
+                     result=None, node=e, recv=None))
+        return [(x, ('call', ('fn', c.name), tuple(args), tuple(sorted(kwargs, key=lambda kv: str(kv[0])))))]
+
     def call(self, e, st):
         f = e.func
         fn = self.fn
@@ -1912,43 +1953,7 @@ class SymEx:
                 targets, how, layer = [m], 'typed', 1
         if how.startswith('ctor:'):
             c = self.M.cls(how[5:])
-            init = targets[0] if targets else None
-            bound = self.bind(init, args, kwargs) if init else {}
-            if (c.name in self.value_classes and init is not None) or self.M.is_record_init(c):
-                return self.construct(c, bound, st, e)
-            rf = self.M.record_fields(c, c.name in self.value_classes)
-            if rf is not None and not any(a[0] == 'starred' for a in args):
-                # a dataclass / NamedTuple new to the tree: the object is its fields
-                names = [n for n, _ in rf]
-                vals = dict(zip(names, args))
-                vals.update({k: v for k, v in kwargs if k in names})
-                ok = True
-                for n, d in rf:
-                    if n not in vals:
-                        if d is None:
-                            ok = False
-                            break
-                        self.frames.append(self.M.module_func(c.mod))
-                        try:
-                            r_ = self.ev(d, State())
-                        finally:
-                            self.frames.pop()
-                        if len(r_) != 1:
-                            ok = False
-                            break
-                        vals[n] = r_[0][1]
-                        if vals[n][0] == 'call' and vals[n][1][0] == 'ext' and vals[n][1][1].endswith('field'):
-                            df = dict(vals[n][3]).get('default')
-                            if df is None:
-                                ok = False
-                                break
-                            vals[n] = df
-                if ok and len(args) <= len(names):
-                    NT_FIELDS[c.name] = tuple(names)
-                    return [(st, ('new', c.name, tuple(sorted(vals.items()))))]
-            x = st.ev(Ev('call', callee=[c.name + '.__init__'], args=bound, site=site, fn=fn.qn, how=how, layer=layer,
-                         result=None, node=e, recv=None))
-            return [(x, ('call', ('fn', c.name), tuple(args), tuple(sorted(kwargs, key=lambda kv: str(kv[0])))))]
+            return self.ctor_call(c, targets[0] if targets else None, args, kwargs, st, e, how, layer)
         if targets:
             if len(targets) == 1 and not self.suppress and self.policy(fn, targets[0], len(self.frames)):
                 t = targets[0]
@@ -2085,6 +2090,9 @@ class SymEx:
                 return r_
         if fv[0] == 'call' and fv[1] == ('ext', 'functools.wraps') and len(args) == 1 and not kwargs:
             return [(st, args[0])]          # functools.wraps(f)(w) is w
+        if fv[0] == 'var' and fv[1].startswith('class:') and self.M.cls(fv[1][6:]) is not None:
+            c_ = self.M.cls(fv[1][6:])            # a class held in a variable / table and called: construction
+            return self.ctor_call(c_, c_.lookup('__init__'), args, kwargs, st, e, 'ctor:' + c_.name, 1)
         if fv[0] == 'attr' and fv[1][0] != 'mod':
             # a bound method obtained as a value (attrgetter('get_bid')(ds), getattr(ds, name)): call it on its receiver
             r_ = self.call_method_by_name(e, fv[1], fv[2], list(args), list(kwargs), st)
@@ -2484,6 +2492,8 @@ def _callable_value(fv, sx):
         return True
     if fv[0] == 'localfn':
         return True
+    if fv[0] == 'var' and fv[1].startswith('class:') and sx.M.cls(fv[1][6:]) is not None:
+        return True
     if fv[0] == 'attr' and fv[1][0] != 'mod':
         from .model import CONTAINER_METHODS
         return fv[2] not in CONTAINER_METHODS and any(not t_.is_property for t_ in sx.M.cha(fv[2]))
@@ -2589,6 +2599,19 @@ def _fuse_comp(c):
     kind, elt, gens = c[1], c[2], c[3]
     if any(g[1] == ('list', ()) for g in gens):
         return ('dict', ()) if kind == 'dict' else ('list', ())
+    if len(gens) == 1:
+        shape, it, ifs = gens[0]
+        # for k, v in {k2: g(k2) for ...}.items()  /  for x in list(<generator>)
+        while it[0] == 'call' and it[1] in (('ext', 'LIST'), ('ext', 'TUPLE')) and len(it[2]) == 1 and not it[3] and it[2][0][0] == 'comp' and it[2][0][1] in ('gen', 'list'):
+            it = it[2][0]
+        if it[0] == 'call' and it[1] == ('meth', 'items') and len(it[2]) == 1 and it[2][0][0] == 'comp' and it[2][0][1] == 'dict' and len(shape) == 2 \
+                and all(z[0] == 'bv' for z in shape) and it[2][0][2][0] == 'tuple' and not any(x[0] == 'comp' for x in T.subterms(elt)):
+            inner = it[2][0]
+            m_ = {shape[0]: inner[2][1][0], shape[1]: inner[2][1][1]}
+            f2 = lambda z: m_.get(z) if z[0] == 'bv' else None
+            last = inner[3][-1]
+            return _simplify_access(('comp', kind, T.replace(elt, f2), tuple(inner[3][:-1]) + ((last[0], last[1], tuple(last[2]) + tuple(T.replace(i, f2) for i in ifs)),)))
+        gens = ((shape, it, ifs),)
     if len(gens) == 1 and kind != 'dict':
         shape, it, ifs = gens[0]
         if it[0] == 'comp' and it[1] in ('gen', 'list') and len(shape) == 1 and shape[0][0] == 'bv' \
@@ -2598,8 +2621,26 @@ def _fuse_comp(c):
             elt2 = T.replace(elt, f)
             ifs2 = tuple(T.replace(i, f) for i in ifs)
             last = igens[-1]
-            return ('comp', kind, elt2, tuple(igens[:-1]) + ((last[0], last[1], tuple(last[2]) + ifs2),))
-    return c
+            return _simplify_access(('comp', kind, elt2, tuple(igens[:-1]) + ((last[0], last[1], tuple(last[2]) + ifs2),)))
+    return ('comp', kind, elt, tuple(gens)) if gens is not c[3] else c
+
+
+def _simplify_access(t):
+    """field of a record literal, component of a tuple literal: read through (needed after substituting a constructed record for a variable)"""
+    def f(z):
+        if z[0] == 'attr' and z[1][0] == 'new':
+            d = dict(z[1][2])
+            if z[2] in d:
+                return d[z[2]]
+        if z[0] == 'sub' and z[1][0] in ('tuple', 'list') and z[2][0] == 'num' and z[2][1].denominator == 1 and -len(z[1][1]) <= int(z[2][1]) < len(z[1][1]):
+            return z[1][1][int(z[2][1])]
+        if z[0] == 'sub' and z[1][0] == 'new' and z[1][1] in NT_FIELDS and z[2][0] == 'num' and z[2][1].denominator == 1:
+            fs = NT_FIELDS[z[1][1]]
+            n = int(z[2][1])
+            if -len(fs) <= n < len(fs):
+                return dict(z[1][2]).get(fs[n])
+        return None
+    return T.replace(t, f)
 
 
 def _single_use(v):
